@@ -150,6 +150,8 @@ def run(ctx):
     rng = ctx.rng
 
     # ---- 1. regenerate the model + translator self-check ---------------------------------------
+    numeric.regen(ctx, "astronomy")   # the latitude-loop theorems (P_LatLoop) are stated on Gen_orbital
+    numeric.regen(ctx, "orbital")
     tr, defs = numeric.regen(ctx, "geoloc")
     if tr is not None:
         import symtrace as st
